@@ -258,7 +258,7 @@ def replayer(v):
 def main(tier, seed):
     chk = H.Check(PID, tier, seed)
     chk.replayer = replayer
-    nprog = 60 if tier == 'quick' else 400
+    nprog = 120 if tier == 'quick' else 500
     seeds = [seed * 100000 + 50000 + i for i in range(nprog)]
     for gi in range(12): chk.job(job_runs, 'programs/%d' % gi, seeds=seeds[gi::12], depth=2, size=5 if tier == 'quick' else 7)
     chk.bounds = dict(programs=nprog, per_program='every assignment of c1, c2 and the array length; array items symbolic')
